@@ -3163,7 +3163,8 @@ impl Scenario for Isolate {
          duplication / reordering, RDH field edits incl. the fields a link learns from its first packet (version, \
          system ID, priority, reserved bits; first packet of the link in half of the cases), word bit flips / ID \
          changes / deletions / duplications; staves of one layer differing in one bit; two FEE IDs on one link \
-         number in stave mode; 1 in 8 a multi-link sample file of the repository cut up by the walker) in one of \
+         number in stave mode; link numbers from the whole 8-bit range in a third of the link-dispatch cases; one case \
+         with 257..300 staves; 1 in 8 a multi-link sample file of the repository cut up by the walker) in one of \
          the modes check all, check all its, check all its-stave, check sanity its. For each case: a reference full \
          run on one merge of the links; a full run on a different merge (contiguous / round-robin / random) of the \
          same per-link sequences; for one link its physically extracted single-link stream; a filter run (-f / -F / \
@@ -3193,10 +3194,48 @@ impl Scenario for Isolate {
         cfg.share_link_ids = stave && rng.chance(1, 2);
         // staves of one layer whose numbers differ in one bit (a filter mask slip selects both)
         cfg.alias_staves = rng.chance(1, 2);
+        // more staves than an 8-bit index can tell apart (one case of the quick tier, 1 in 1000 otherwise):
+        // 257..300 FEE IDs, each with its own validator
+        let many_staves = stave && match _tier {
+            Tier::Quick => case == 1002,
+            Tier::Thorough => case % 4000 == 1002,
+        };
+        if many_staves {
+            cfg.n_links = rng.range(257, 300) as usize;
+            cfg.share_link_ids = true;
+            cfg.alias_staves = false;
+            cfg.hbfs = (1, 2);
+            cfg.data_pages = (1, 1);
+            cfg.triggers = (1, 1);
+            cfg.max_hits = 1;
+        }
         let mut st = gen_conforming(&cfg, &mut rng);
         let mut label = CHECK_MODES[mode_i].join(" ");
         if cfg.share_link_ids {
             label.push_str(" shared-link-ids");
+        }
+        if many_staves {
+            label.push_str(" more-than-256-staves");
+        }
+        // 1 in 3 (dispatch by link): link numbers from the whole 8-bit range instead of the usual 0..11 and 15
+        if !stave && rng.chance(1, 3) {
+            let mut used: Vec<u8> = st.links.iter().map(|l| l.link_id).collect();
+            for i in 0..st.links.len() {
+                if rng.chance(2, 3) {
+                    let l = loop {
+                        let l = rng.range(12, 255) as u8;
+                        if !used.contains(&l) {
+                            break l;
+                        }
+                    };
+                    used.push(l);
+                    st.links[i].link_id = l;
+                    for p in st.links[i].packets.iter_mut() {
+                        p.rdh.link_id = l;
+                    }
+                }
+            }
+            label.push_str(" link-numbers-0..255");
         }
         let nf = if rng.chance(1, 4) { 0 } else { rng.range(1, 4) };
         for _ in 0..nf {
